@@ -24,7 +24,7 @@ from ..run import pmap
 from ..gen import projgen, supprgen
 
 PID = 'C21'
-FLAVOURS = ['mon', 'asan']
+FLAVOURS = ['mon'] if os.environ.get('VERIF_C21_NO_ASAN') == '1' else ['mon', 'asan']
 LEVEL = 'fault_enumeration'
 META = {
     'technique': 'fault enumeration with hook H4 (worker dies before its k-th pipe message / after CHILD_END by '
@@ -44,7 +44,7 @@ META = {
 }
 
 MODES = ['segv', 'kill', 'abort', 'exit3']
-TIMEOUT = {'mon': 60, 'asan': 240}
+TIMEOUT = {'mon': 90, 'asan': 300}
 KNOWN_AFTER_EXIT = 'worker-fault:after:%s:exit-status-lost'
 
 
@@ -76,7 +76,10 @@ def _loc_file(f):
 
 
 def _comparable(fs):
-    return [f for f in fs if not cases.is_whole_program(f.id)]
+    """whole-program ids are outside the comparison, and so is the matched-state of an inline suppression
+    *of* such an id (it is matched by the whole-program phase, whose input includes the crashed file)"""
+    return [f for f in fs if not cases.is_whole_program(f.id)
+            and not (f.id == 'unmatchedSuppression' and cases.glob_hits_whole_program(f.msg.rsplit(': ', 1)[-1]))]
 
 
 def _mkcase(ctx, ci, kind, wdir=None):
@@ -153,11 +156,12 @@ def _baseline(ctx, C, flavour='mon'):
     ff = _run(C, flavour, {'VERIF_WORKER_LOG': wl}, 'ff_' + flavour)
     if ff.res.timed_out or not ff.xml_ok or cases.crashed(ff.res):
         return False
-    ff2 = _run(C, flavour, None, 'ff2_' + flavour)
-    oa, ob = findings.diff(_comparable(ff.findings), _comparable(ff2.findings))
-    if oa or ob or ff.rc != ff2.rc:
-        ctx.count('skipped', 'fault-free-run-not-reproducible')
-        return False
+    if flavour == 'mon':
+        ff2 = _run(C, flavour, None, 'ff2_' + flavour)
+        oa, ob = findings.diff(_comparable(ff.findings), _comparable(ff2.findings))
+        if oa or ob or ff.rc != ff2.rc:
+            ctx.count('skipped', 'fault-free-run-not-reproducible')
+            return False
     C.ff = ff
     C.M = {}
     for t in _read_tsv(wl):
@@ -235,6 +239,17 @@ def _check(ctx, C, specs, flavour, tag):
              % (a.rc, a.res.etext()[-1200:]))
         return True
     fa = _comparable(a.findings)
+    # with a build dir the killed worker leaves a truncated cache file; the whole-program phase then
+    # reports an unlocated internalError "failed to load '<bd>/<stem>.aN' ..." naming that cache file:
+    # that is a report about the crashed file (nothing is asserted about those)
+    def about_crashed_cache(f):
+        if f.id != 'internalError' or f.locs or not C.use_bd:
+            return False
+        return any("/%s.a" % os.path.splitext(os.path.basename(c))[0] in f.msg for c in crashed)
+    n0 = len(fa)
+    fa = [f for f in fa if not about_crashed_cache(f)]
+    if n0 != len(fa):
+        ctx.count('crashed_file_cache_load_errors', flavour, n0 - len(fa))
     internal = [f for f in fa if _is_internal(f)]
     rest = [f for f in fa if not _is_internal(f)]
     # --- an internal error names every crashed file, and no other file
@@ -356,6 +371,8 @@ def _random_sets(ctx, C, n):
 
 
 def _do_case(ctx, ci, kind, wdir=None):
+    import time
+    t0 = time.time()
     C = _mkcase(ctx, ci, kind, wdir)
     try:
         if not _baseline(ctx, C):
@@ -395,12 +412,14 @@ def _do_case(ctx, ci, kind, wdir=None):
                         'multi_sets': len(sets), 'fired_and_checked': n, 'options': C.opts})
         return C
     finally:
-        if kind == 'witness' or not getattr(C, 'keep', False):
-            shutil.rmtree(C.dir, ignore_errors=True)
+        ctx.count('wall_s_by_case_kind', kind, round(time.time() - t0, 1))
+        shutil.rmtree(C.dir, ignore_errors=True)
 
 
 def _asan_sample(ctx, ci, nfaults):
     """a sample of single faults and sets on the ASan+UBSan build (own fault-free baseline)"""
+    import time
+    t0 = time.time()
     C = _mkcase(ctx, 'a%d' % ci, ('dirty', 'clean', 'info')[ci % 3])
     C.use_bd = False
     try:
@@ -410,12 +429,13 @@ def _asan_sample(ctx, ci, nfaults):
         rng = ctx.subrng('asan', ci)
         singles, _ex = _all_singles(ctx, C)
         rng.shuffle(singles)
-        picked = singles[:nfaults] + _random_sets(ctx, C, max(1, nfaults // 4))
+        picked = singles[:nfaults] + _random_sets(ctx, C, max(1, nfaults // 4))[:max(1, nfaults // 4)]
         n = _enumerate(ctx, C, 'asan', picked, [])
         ctx.count('cases', 'asan-sample:j%d' % C.jobs)
         if n >= 0.9 * len(picked):
             ctx.trivial_or('%s:j%d:asan' % (C.digest, C.jobs))
     finally:
+        ctx.count('wall_s_by_case_kind', 'asan-sample', round(time.time() - t0, 1))
         shutil.rmtree(C.dir, ignore_errors=True)
 
 
@@ -432,5 +452,8 @@ def run(ctx):
     n = ctx.n(3, 36)
     for ci in range(n):
         _do_case(ctx, ci, ('clean', 'dirty', 'info')[ci % 3])
+    if os.environ.get('VERIF_C21_NO_ASAN') == '1':   # sensitivity experiments on a mutated tree (mon build only)
+        ctx.assumptions.append('asan sample skipped (VERIF_C21_NO_ASAN=1)')
+        return
     for ci in range(ctx.n(1, 6)):
-        _asan_sample(ctx, ci, ctx.n(6, 40))
+        _asan_sample(ctx, ci, ctx.n(4, 40))
